@@ -27,6 +27,9 @@ def check(ctx):
     ctx.rule("C18-B", "every source of document styles is governed by use_doc_css, whose only writer is the builder")
     ctx.guard("C18-A", rule_a)
     ctx.guard("C18-B", rule_b)
+    ctx.rule("C18-C", "document style sheets are collected from the whole document: the extraction walk descends into every "
+             "element and treats only <style> specially (a sheet in the body counts like one in the head)")
+    ctx.guard("C18-C", rule_c)
 
 
 BUILDERS = ("RenderNode::new", "RenderNode::new_styled", "pending", "pending_noempty", "table_to_render_tree",
@@ -271,3 +274,38 @@ def rule_b(ctx):
         if "use_doc_css" in ops:
             ctx.check(direct_field(b, ops["use_doc_css"]) == ("config::Config", "use_doc_css"), "C18-B",
                       "HtmlContext-literal:use_doc_css←config@%s" % fn_key(b), st["span"], b.id, "")
+
+
+def rule_c(ctx):
+    F = ctx.facts
+    if not any(f["name"] == "use_doc_css" for f in F.adt("HtmlContext")["variants"][0]["fields"]):
+        ctx.info("C18-C", "no document style extraction in this configuration (css feature off)")
+        return
+    from .C03 import decode_atom
+    b = F.one("css::dom_extract::extract_style_nodes")
+    nd = F.adt("NodeData")
+    ev = [v["discr"] for v in nd["variants"] if v["name"] == "Element"][0]
+    disp = find_dispatch(b, "NodeData", 3)
+    tb = [x for v, x in b.term(disp)["targets"] if v == ev]
+    require(len(tb) == 1, "Element arm of extract_style_nodes")
+    region = b.reach_from(tb[0], avoid=[disp])
+    names = set()
+    for a in sorted(region):
+        t = b.term(a)
+        if t["k"] != "switch":
+            continue
+        neg, src = b.switch_source(a)
+        if src[0] == "bin" and src[1]["bin"] == "Eq":
+            for side in ("a", "b"):
+                ints = [x[1] for x in b.atoms(src[1][side], through_calls=False) if x[0] == "int"]
+                other = b.atoms(src[1]["b" if side == "a" else "a"], through_calls=False)
+                if ints and any(x[0] == "field" and x[2] == "local" for x in other):
+                    names |= {decode_atom(i) or "?%d" % i for i in ints}
+    ctx.check(names == {"style"}, "C18-C", "style-extraction:only-style-is-special", b.span, b.id,
+              "element names tested by the style extraction walk: %s" % sorted(names))
+    skipped = [st["span"] for x in region for st in b.stmts(x)
+               if (st.get("rv") or {}).get("variant") == "Nothing" and ends((st.get("rv") or {}).get("adt"), "TreeMapResult")]
+    ctx.check(not skipped, "C18-C", "style-extraction:no-element-skipped", skipped[0] if skipped else b.span, b.id,
+              "an element arm of the extraction walk returns Nothing: style elements below such an element are never read")
+    ctx.check(bool([1 for x in region if b.term(x)["k"] == "call" and ends(callee_def(b.term(x)), "pending")]), "C18-C",
+              "style-extraction:descends-into-children", b.span, b.id, "")
